@@ -195,6 +195,9 @@ class PVGNode():
 
         locations.sort()
 
+        if not locations:
+            return self.reading_frame_index
+
         return locations[i].reading_frame_index
 
     def get_first_rf_index(self) -> int:
